@@ -219,7 +219,8 @@ Definition add_lag (r : bring) (cp : cpart) : option cpart :=
   | [] => Some (mkCpart (cp_offsets cp) bo (cp_owner cp) (cp_client cp) (cp_lag cp))
   | o0 :: orest =>
       match bo with
-      | [] => None                                       (* BrokerOffsets[len-1] on an empty slice *)
+      | [] => Some (mkCpart (cp_offsets cp) bo (cp_owner cp) (cp_client cp) (cp_lag cp))
+                                                         (* no broker offset recorded: no lag (guard added by 54faa50) *)
       | b0 :: brest =>
           let b := last bo b0 in
           match last (cp_offsets cp) None with
@@ -234,7 +235,11 @@ Fixpoint add_lags (tl : list bring) (i : nat) (cps : list cpart) : option (list 
   | [] => Some []
   | cp :: rest =>
       match nth_error tl i with
-      | None => None                                     (* topicMap[p] out of range *)
+      | None =>                                          (* p >= len(topicMap): partition left as it is (54faa50) *)
+          match add_lags tl (S i) rest with
+          | Some rest' => Some (cp :: rest')
+          | None => None
+          end
       | Some r =>
           match add_lag r cp, add_lags tl (S i) rest with
           | Some cp', Some rest' => Some (cp' :: rest')
